@@ -29,9 +29,9 @@ def main():
         if rc != 0:
             results[d] = dict(applied=False, note=out[-300:]); print(d, "patch does not apply"); continue
         t0 = time.time()
-        extra = json.load(open(os.path.join(SEED, d, "meta.json"))).get("also_check", [])
         caught = {}
         try:
+            extra = json.load(open(os.path.join(SEED, d, "meta.json"))).get("also_check", [])
             for p in [prop] + extra:
                 rc, out = sh("cd %s && ./check %s --tier quick" % (ROOT, p), timeout=3600)
                 viol = [l for l in out.splitlines() if l.startswith("VIOLATION")]
